@@ -162,14 +162,26 @@ func gen(body []byte) *core.Verdict {
 		u.n = rng.Intn(120)
 	}
 	w := indent.NewWriter(u, p)
-	alphabet := []string{"a", "b", "\n", "\n", "\r\n", " ", "é", "世", "\t"}
+	alphabet := []string{"a", "b", "\n", "\n", "\r\n", " ", "é", "世", "\t", p, p[:1]} // the prefix's own characters occur in the text too
 	var pending []byte
 	var all []byte
 	calls := 1 + rng.Intn(30)
+	long, longAt := rng.Intn(25) == 0, 0
+	if long { // few calls: the recorded sink is repeated in every event
+		calls = 1 + rng.Intn(3)
+		longAt = rng.Intn(calls)
+		if u.n >= 0 {
+			u.n = rng.Intn(4000)
+		}
+	}
 	for i := 0; i < calls; i++ {
 		chunk := pending
 		pending = nil
-		for j, n := 0, rng.Intn(9); j < n; j++ {
+		n := rng.Intn(9)
+		if long && i == longAt {
+			n = 1000 + rng.Intn(1400) // one very long Write (implementations may work in blocks)
+		}
+		for j := 0; j < n; j++ {
 			chunk = append(chunk, alphabet[rng.Intn(len(alphabet))]...)
 		}
 		if len(chunk) > 1 && rng.Intn(4) == 0 { // split anywhere, also inside a rune
